@@ -68,29 +68,45 @@ def _on_alarm(signum, frame):
 
 
 WATCHDOG_S = float(os.environ.get("VERIF_WATCHDOG_S", "10"))
+# The watchdog counts the CPU time of the process (ITIMER_PROF): a call that does not return burns it, and a busy machine
+# does not turn a slow call into a "hang" (under a load of 60 on 16 cores a 10 s wall-clock limit did - soundness wave k5).
+# A generous wall-clock limit stays as a second line for a call that blocks without computing.
+WATCHDOG_WALL_S = float(os.environ.get("VERIF_WATCHDOG_WALL_S", str(30 * WATCHDOG_S)))
 
 
 def install_watchdog():
     signal.signal(signal.SIGALRM, _on_alarm)
+    signal.signal(signal.SIGPROF, _on_alarm)
+
+
+def _arm():
+    signal.setitimer(signal.ITIMER_PROF, WATCHDOG_S)
+    signal.setitimer(signal.ITIMER_REAL, WATCHDOG_WALL_S)
+
+
+def _disarm():
+    signal.setitimer(signal.ITIMER_PROF, 0)
+    signal.setitimer(signal.ITIMER_REAL, 0)
 
 
 def guard(fn, *a, **k):
     """Run fn under the watchdog; never lets anything but KeyboardInterrupt out."""
-    signal.setitimer(signal.ITIMER_REAL, WATCHDOG_S)
+    _arm()
     try:
         v = fn(*a, **k)
-        signal.setitimer(signal.ITIMER_REAL, 0)
+        _disarm()
         return ("ok", v)
     except Hang:
-        return ("hang", "no return within %gs" % WATCHDOG_S)
+        _disarm()
+        return ("hang", "no return within %gs of processor time" % WATCHDOG_S)
     except KeyboardInterrupt:
-        signal.setitimer(signal.ITIMER_REAL, 0)
+        _disarm()
         raise
     except BaseException as e:  # SystemExit from exit() included
-        signal.setitimer(signal.ITIMER_REAL, 0)
+        _disarm()
         return ("exc", "%s: %s" % (type(e).__name__, str(e)[:160]))
     finally:
-        signal.setitimer(signal.ITIMER_REAL, 0)
+        _disarm()
 
 
 # ---------------------------------------------------------------------------
